@@ -17,7 +17,8 @@ RULE = ("(type spec, value, options, entry) with 70% hostile values (any Python 
         "non-trivial = the call was rejected, or accepted after a conversion; distinct = hash of the whole case")
 ASSUMPTIONS = [
     "termination verdict = more than 2e5 + 2e3*size(input) line events inside utype/ for one parse (ordinary parses use 1e2..1e4); "
-    "a case over budget is re-run with 50x budget: completing there is 'slow' (evidence only), not a hang",
+    "a case over budget is re-run with 50x budget: completing there is 'slow' (evidence only), not a hang; a case stopped by the wall-clock backstop "
+    "before its LINE budget ran out is inconclusive (time inside one interpreter operation), counted as slow-inconclusive, never a verdict",
     "KeyboardInterrupt/SystemExit/MemoryError out of scope; evil objects (raising dunders) only in the thorough tier",
     "declarations refused at declaration time are discarded",
 ]
@@ -67,10 +68,14 @@ def run_case(case):
     b = budget_for(vs)
     out = oracle.outcome(fn, x, line_budget=b)
     res = {"status": out[0], "fails": []}
+    if out[0] == "hang" and (out[1] is None or out[1] == "wall-clock-backstop"):
+        # the wall clock ran out before the LINE budget did: time spent inside one interpreter operation (int(Decimal('1E+1000000')) takes
+        # 30 s in CPython itself), not a loop in the library - inconclusive, counted, never a verdict
+        return {"status": "slow-inconclusive", "fails": []}
     if out[0] == "hang":
         x2 = codec.decode(vs)
         out2 = oracle.outcome(fn, x2, line_budget=b * 50, backstop=30)
-        if out2[0] == "hang":
+        if out2[0] == "hang" and out2[1] is not None and out2[1] != "wall-clock-backstop":
             res["fails"].append((f"hang@{out[1]}", {"where": out[1], "budget": b}))
         else:
             res["status"] = "slow"
@@ -114,12 +119,19 @@ def case_strategy(thorough):
 
     def with_value(spec):
         h = gen.hostile(max_leaves=10 if thorough else 6, evil=thorough)
-        vals = st.one_of(h, h, gen.conforming(spec))
+        vals = st.one_of(h, h, h, h, gen.conforming(spec), gen.conforming(spec), gen.unprintable)
         return st.fixed_dictionaries({
             "type": st.just(spec), "value": vals, "options": ANY_OPTIONS,
             "entry": st.sampled_from(entries.ENTRIES),
         })
-    return ts.flatmap(with_value)
+    # numeric constraints meet values arithmetic cannot handle: NaN / infinities in every spelling, numbers beyond the float and Decimal ranges
+    NONFINITE = (["nan", "NaN", "-nan", "sNaN", "inf", "-inf", "Infinity", "-Infinity", "1e400", "-1e400", "1E+5000", "1e-400", {"t": "bytes", "v": "6e616e"}]
+                 + [{"t": "float", "v": v} for v in ("nan", "inf", "-inf", "1e308")] + [{"t": "decimal", "v": v} for v in ("NaN", "sNaN", "Infinity", "-Infinity", "1E+9999", "1E-9999")]
+                 + [gen._int_spec(10 ** 400), gen._int_spec(-(10 ** 400))])
+    numeric = gen.constrained(lax_ok=True, origins=["decimal", "decimal", "float", "int"]).flatmap(lambda spec: st.fixed_dictionaries({
+        "type": st.just(spec), "value": st.sampled_from(NONFINITE), "options": st.one_of(st.just({}), ANY_OPTIONS),
+        "entry": st.sampled_from(["call", "call", "transform"] + list(entries.ENTRIES))}))
+    return st.one_of(ts.flatmap(with_value), ts.flatmap(with_value), ts.flatmap(with_value), ts.flatmap(with_value), ts.flatmap(with_value), numeric)
 
 
 def campaign(ctx):
@@ -128,6 +140,10 @@ def campaign(ctx):
         s = r["status"]
         ctx.label(f"status_{s}")
         ctx.label(f"entry_{case['entry']}")
+        if case["type"].get("k") == "con" and case["type"].get("o") in ("decimal", "float", "int") and s in ("ok", "perr"):
+            ctx.label("numeric_constraint_" + s)
+        if isinstance(case["value"], dict) and (case["value"].get("t") == "deep" or "hex" in case["value"]):
+            ctx.label("value_without_a_text_form_" + ("deep_nesting" if case["value"].get("t") == "deep" else "huge_int") + "_" + s)
         if s in ("perr", "other", "hang") or (s == "ok" and r.get("changed")):
             ctx.nt(case)
         if s == "perr":
